@@ -10,6 +10,7 @@
 #include <thread>
 
 #include "log.h"
+#include "verif_hook.h"
 
 #include "glog/logging.h"
 
@@ -23,6 +24,9 @@ namespace yakushima {
 }
 
 [[maybe_unused]] static void sleepMs(size_t ms) {
+#ifdef YAKUSHIMA_VERIF
+    if (auto* yh_ = ::yakushima::verif::get(); yh_ && yh_->sleep && yh_->sleep(ms)) { return; }
+#endif
     std::this_thread::sleep_for(std::chrono::milliseconds(ms));
 }
 
